@@ -1,3 +1,3 @@
 (* umbrella: all proof files of the headers domain *)
 From GV Require Export Res Str StrProofs KeyVal KeyValProofs HdrTransport HdrSession HdrAuth Float HdrRange Mikey HdrKeyMgmt
-  HdrAuthProofs HdrSessionProofs HdrTransportProofs FloatProofs HdrRangeProofs MikeyProofs HdrKeyMgmtProofs.
+  HdrAuthProofs HdrSessionProofs HdrTransportProofs FloatProofs FloatRound NptRound HdrRangeProofs MikeyProofs HdrKeyMgmtProofs.
